@@ -60,7 +60,14 @@ def graph(date: str, targets: tuple | None = None):
     t = list(DEFAULT_TARGETS if targets is None else targets)
     with warnings.catch_warnings():
         warnings.simplefilter("ignore")
-        fno, _ = load_and_check_functions(functions, t, list(TYPES_INPUT_VARIABLES), {}, {})
+        try:
+            fno, _ = load_and_check_functions(functions, t, list(TYPES_INPUT_VARIABLES), {}, {})
+        except ValueError as ex:
+            # default targets that did not exist yet at early dates (Abgeltungssteuer before 2009, …) are left out
+            if targets is not None or "no corresponding function" not in str(ex):
+                raise
+            t = [x for x in t if f'"{x}"' not in str(ex)]
+            fno, _ = load_and_check_functions(functions, t, list(TYPES_INPUT_VARIABLES), {}, {})
         dag = set_up_dag(fno, t, set(), "ignore")
     return dag, fno
 
